@@ -136,6 +136,22 @@ func (cr *ChunkReader) Read(p []byte) (int, error) {
 	return n, err
 }
 
+// readToEnd reads the source until it reports its end and returns the
+// error it ends with, if any
+func (cr *ChunkReader) readToEnd() error {
+	var buf [512]byte
+	for {
+		_, err := cr.r.Read(buf[:])
+		if err == io.EOF {
+			cr.isEOF = true
+			return nil
+		}
+		if err != nil {
+			return err
+		}
+	}
+}
+
 // https://docs.aws.amazon.com/AmazonS3/latest/API/sigv4-streaming.html#sigv4-chunked-body-definition
 // This part is the same for all chunks,
 // only the previous signature and hash of current chunk changes
@@ -264,6 +280,15 @@ func (cr *ChunkReader) parseAndRemoveChunkInfo(p []byte) (int, error) {
 			}
 			err = cr.verifyTrailerSignature()
 			if err != nil {
+				return 0, err
+			}
+		}
+
+		// the source reports its end, and with it the verdict of the
+		// deferred request signature check, with a read of its own when
+		// the body is sent with chunked transfer encoding
+		if !cr.isEOF {
+			if err := cr.readToEnd(); err != nil {
 				return 0, err
 			}
 		}
